@@ -11,6 +11,7 @@ CONSTANTS
   Tmo <- TmoGen
   Horizon = 2
   AllowFaults = FALSE
+  OpenGarbage = FALSE
   AdapterErrors = FALSE
   AllowCancel = FALSE
   AllowStall = TRUE
